@@ -43,6 +43,8 @@
      ShadowAfterPolicy   the shadowing draw is added AFTER the small-distance handling (a returned loss can be < 0)
      ZeroInArrayAsUnit   a zero distance inside an ARRAY gets the loss of the unit distance instead of the policy
      PlotRestoresPolicyFromShadow / PlotRaiseLeavesShadowOff   the plot helper does not leave the object as it was
+     ClampLostInFortranLayout   the clamp does not reach matrices that are not C-ordered
+     LinearArrayIgnoresRaise    the linear array query never raises under the raise policy
 
    Shadowing (`use_shadow_bool`, `sigma_shadow`) is part of the state with its two setters.  While it is on with
    sigma > 0 the exact-value queries are not enabled (the value is det + sigma z for an unknown draw z); the range
@@ -184,6 +186,16 @@ ArrOutcome(a) ==
     THEN [t |-> "raise", v |-> <<>>]
     ELSE [t |-> "arr", v |-> [i \in 1..Len(a.ks) |-> ArrElem(a.ks[i], a.ws[i])]]
 ArrDecided(a) == \A i \in 1..Len(a.ks) : Decided(a.ks[i], a.ws[i])
+\* The outcome of an array query is a function of the VALUES: it does not depend on how the caller holds them in memory.
+\* Dev.ClampLostInFortranLayout: the clamp is applied through a flattened COPY for matrices that are not C-ordered.
+Layouts == {"C", "Fortran", "transposed", "strided"}
+ArrOutcomeL(a, lay) ==
+  IF Dev.ClampLostInFortranLayout /\ lay \in {"Fortran", "transposed"} /\ pol
+    THEN [t |-> "arr", v |-> [i \in 1..Len(a.ks) |-> [t |-> "val", f |-> Det(a.ks[i], a.ws[i])]]]
+    ELSE ArrOutcome(a)
+\* The linear query is 10^(-dB/10) of the dB query and therefore falls under the SAME small-distance policy (it raises
+\* exactly when the dB query raises).  Dev.LinearArrayIgnoresRaise: an array fast path of the linear query never raises.
+ArrLinT(a) == IF Dev.LinearArrayIgnoresRaise THEN "arr" ELSE ArrOutcome(a).t
 
 \* linear value 10^(-dB/10) as an exact rational where dB/10 is an integer in 0..9
 LinOf(o) == IF o.t = "zero" THEN ROne
@@ -201,6 +213,8 @@ E(rec) == IF DoEmit /\ (EmitSel = 0 \/ (EmitSel = 1 /\ ~pol) \/ (EmitSel = 2 /\ 
 
 \* frame conditions every call is replayed under (notes/CALL_DISCIPLINE.md); listed in every emitted record
 FrameQ == {"ArgumentsUnchanged", "EarlierResultsUnchanged", "QueryIsPure", "AnyDtypeSameValue",
+           "AnyLayoutSameValue",       \* C-ordered, Fortran-ordered, transposed and strided matrices hold the same distances
+           "LinearAgreesWithDb",       \* linear query = 10^(-dB/10), same raise / clamp decision, for every input form
            "AnyShapeElementwise",      \* an array query is element-wise: row / column / matrix / broadcast wall vector, same elements
            "AnyScalarTypeSameValue"}   \* a scalar distance as int, numpy scalar or 0-d array is the same distance
 FrameS(o) == IF o = "raise" THEN {"RejectedChangesNothing"} ELSE {}
@@ -296,6 +310,7 @@ QPLdBArr(i) ==
   /\ E([kind |-> "q", op |-> "PLdBArr", ks |-> ArrSets[i].ks,
         ws |-> IF Model = "metis" THEN ArrSets[i].ws ELSE <<>>, exp |-> ArrOutcome(ArrSets[i]), pre |-> P, post |-> P,
         \* one wall count for all distances (>= 0): the query may equally be issued with that SCALAR count
+        lin |-> ArrLinT(ArrSets[i]), layouts |-> Layouts,
         scalarw |-> IF Model = "metis" /\ \A j \in 1..Len(ArrSets[i].ws) : ArrSets[i].ws[j] = ArrSets[i].ws[1]
                       THEN ArrSets[i].ws[1] ELSE -1,
         frame |-> FrameQ])
@@ -418,6 +433,11 @@ Policy ==
             THEN ArrOutcome(a).t = "raise"
             ELSE /\ ArrOutcome(a).t = "arr"
                  /\ \A j \in 1..Len(a.ks) : ArrOutcome(a).v[j] = Outcome(a.ks[j], a.ws[j])
+LayoutIndependent ==
+  (Live /\ Exact) => \A i \in 1..Len(ArrSets) : ArrDecided(ArrSets[i]) =>
+      \A lay \in Layouts : ArrOutcomeL(ArrSets[i], lay) = ArrOutcome(ArrSets[i])
+LinearAgrees ==
+  (Live /\ Exact) => \A i \in 1..Len(ArrSets) : ArrDecided(ArrSets[i]) => ArrLinT(ArrSets[i]) = ArrOutcome(ArrSets[i]).t
 \* the distance-for-a-loss query is the exact inverse of the loss-for-a-distance query
 InverseId == (Live /\ Exact /\ InvOffered) => \A k \in Ks : Inv(Det(k, 0)) = k
 \* free space with exponent 2 is Friis' 20 log10(4 pi d f / c) within 0.01 dB:
